@@ -2,7 +2,9 @@ package props
 
 import (
 	"fmt"
+	"go/token"
 	"go/types"
+	"os"
 	"strings"
 
 	"jrpcvet/internal/facts"
@@ -102,6 +104,54 @@ func ruleStopCancelsTable(c *chk.Ctx, owner string, table *types.Var, via *types
 				}
 			}
 		}
+		// for id := range table { h(id) }: every key is handed, unconditionally, to a private
+		// helper that looks the key up in the same table and invokes the entry found
+		for _, r := range rangesOverField(g, table) {
+			for _, ref := range *r.Referrers() {
+				nx, ok := ref.(*ssa.Next)
+				if !ok {
+					continue
+				}
+				for _, r2 := range *nx.Referrers() {
+					key, ok := r2.(*ssa.Extract)
+					if !ok || key.Index != 1 {
+						continue
+					}
+					for _, r3 := range *key.Referrers() {
+						call, ok := r3.(*ssa.Call)
+						if !ok || len(ir.CondsAt(call.Block())) != len(ir.CondsAt(key.Block())) {
+							continue
+						}
+						h := call.Call.StaticCallee()
+						if h == nil || !c.P.InRepo[h] || ir.Exported(h) {
+							continue
+						}
+						for i, a := range call.Call.Args {
+							if a != ssa.Value(key) || i >= len(h.Params) {
+								continue
+							}
+							ir.Instrs(h, func(ins ssa.Instruction) {
+								lk, ok := ins.(*ssa.Lookup)
+								if !ok || !chk.LoadsField(lk.X, table) || ir.NormCell(lk.Index) != ssa.Value(h.Params[i]) {
+									return
+								}
+								vals := []ssa.Value{lk}
+								for _, lr := range *lk.Referrers() {
+									if e, isE := lr.(*ssa.Extract); isE && e.Index == 0 {
+										vals = append(vals, e)
+									}
+								}
+								for _, v := range vals {
+									if _, ok := callsValueOrField(v, via); ok {
+										good = r
+									}
+								}
+							})
+						}
+					}
+				}
+			}
+		}
 		// maps.DeleteFunc(table, func(k, v) bool { v(); return true }): every entry is visited,
 		// its cancel function invoked, and the entry removed
 		ir.Instrs(g, func(ins ssa.Instruction) {
@@ -141,6 +191,67 @@ func ruleStopCancelsTable(c *chk.Ctx, owner string, table *types.Var, via *types
 				valueParam = 0
 			case strings.HasPrefix(callee, "maps.All"):
 				valueParam = 1
+			}
+			if strings.HasPrefix(callee, "maps.Keys") || strings.HasPrefix(callee, "maps.All") {
+				// the key of every entry handed to a private helper that looks it up in the
+				// same table and invokes the entry found
+				if yc, ok := seqCall.Call.Args[0].(*ssa.MakeClosure); ok {
+					yf := yc.Fn.(*ssa.Function)
+					all := len(yf.Params) > 0
+					for _, r := range ir.Returns(yf) {
+						if k, isK := ir.ReturnResult(r, 0).(*ssa.Const); !isK || k.Value == nil || k.Value.String() != "true" {
+							all = false
+						}
+					}
+					if all {
+						key := yf.Params[0]
+						var calls []*ssa.Call
+						ir.Instrs(yf, func(i2 ssa.Instruction) {
+							if call, ok := i2.(*ssa.Call); ok {
+								calls = append(calls, call)
+							}
+						})
+						for _, call := range calls {
+							// (unconditional, apart from the loop-state check go/ssa puts at the
+							// head of a synthetic yield function)
+							own := 0
+							for _, cd := range ir.CondsAt(call.Block()) {
+								if cd.If == nil || len(yf.Blocks) == 0 || cd.If.Block() != yf.Blocks[0] || !strings.Contains(yf.Synthetic, "range-over-func") {
+									own++
+								}
+							}
+							if own != 0 {
+								continue
+							}
+							h := call.Call.StaticCallee()
+							if h == nil || !c.P.InRepo[h] || ir.Exported(h) {
+								continue
+							}
+							for i, a := range call.Call.Args {
+								if ir.NormCell(a) != ssa.Value(key) || i >= len(h.Params) {
+									continue
+								}
+								ir.Instrs(h, func(i2 ssa.Instruction) {
+									lk, ok := i2.(*ssa.Lookup)
+									if !ok || !chk.LoadsField(lk.X, table) || ir.NormCell(lk.Index) != ssa.Value(h.Params[i]) {
+										return
+									}
+									vals := []ssa.Value{lk}
+									for _, lr := range *lk.Referrers() {
+										if e, isE := lr.(*ssa.Extract); isE && e.Index == 0 {
+											vals = append(vals, e)
+										}
+									}
+									for _, v := range vals {
+										if _, ok := callsValueOrField(v, via); ok {
+											good = seqCall
+										}
+									}
+								})
+							}
+						}
+					}
+				}
 			}
 			if valueParam < 0 {
 				return
@@ -380,6 +491,24 @@ func ruleRetainNotifications(c *chk.Ctx) {
 			return false
 		case *ssa.Const:
 			return x.IsNil()
+		case *ssa.UnOp:
+			// an element of a list of entries prepared beforehand: every entry put into that list
+			if ia, ok := x.X.(*ssa.IndexAddr); ok && x.Op == token.MUL {
+				elems, known := c.P.ElementValues(ia.X)
+				if os.Getenv("JRPCVET_DEBUG") != "" {
+					fmt.Fprintf(os.Stderr, "RUN.retain: elements of %v: %v known=%v\n", ia.X, elems, known)
+				}
+				if !known || len(elems) == 0 {
+					return false
+				}
+				for _, e := range elems {
+					if !walk(e, depth+1) {
+						return false
+					}
+				}
+				return true
+			}
+			return false
 		case *ssa.Call:
 			if b, ok := x.Call.Value.(*ssa.Builtin); ok && b.Name() == "append" {
 				// accumulated inside one callback invocation only
